@@ -15,7 +15,15 @@ class MethodMixin:
     def call_method(self, recv, name, args, kwargs, node):
         ctx = self.ctx
         if isinstance(recv, Opaque):
-            return self.opaque_call(f"{recv.desc}.{name}", args, kwargs)
+            return self.opaque_method(recv, name, args, kwargs)
+        if getattr(recv, "unknown", False):
+            if name in ("append", "extend", "add", "update", "insert", "sort", "remove", "pop", "clear", "discard", "reverse"):
+                self.mutate(recv, name)
+                return None
+            return Opaque(f"unknown.{name}()", fresh=True)
+        if any(isinstance(a, Opaque) or getattr(a, "unknown", False) for a in args) and isinstance(recv, Cell) \
+                and name not in ("append", "extend", "add", "update", "insert", "remove", "discard", "get", "pop", "setdefault"):
+            return Opaque(f"{recv.kind}.{name}()", fresh=True)
         if is_str(recv):
             return self.str_method(recv, name, args, kwargs)
         if isinstance(recv, Cell):
@@ -50,6 +58,23 @@ class MethodMixin:
         if isinstance(recv, (int, float)):
             raise Unsupported(f"numeric method {name}")
         raise Unsupported(f"method {name} on {recv!r}")
+
+    MUTATING_LIB_METHODS = {"insert", "update", "pop", "drop_duplicates_inplace", "setdefault", "append", "extend", "add",
+                            "remove", "clear", "sort", "reverse", "discard", "popitem", "__setitem__", "set_index_inplace",
+                            "put", "itemset", "fill", "resize"}
+
+    def opaque_method(self, recv, name, args, kwargs):
+        """method of an unmodelled (library) object.  Effect table: it mutates its receiver iff it is one of the
+        in-place methods or is called with inplace=True; its result is a new object; arguments are not mutated."""
+        ctx = self.ctx
+        inplace = kwargs.get("inplace")
+        mutating = name in self.MUTATING_LIB_METHODS or inplace is True or isinstance(inplace, (Opaque, SV))
+        if mutating and not recv.fresh and not self.engine.modifies_allows(ctx, recv.desc):
+            ctx.oblige("frame", f"in-place {name}() on {recv.desc}", z3.BoolVal(False), top=True,
+                       info={"frame": recv.desc, "what": name})
+        self.engine.note_assumption("unmodelled library methods return new objects, mutate their receiver only through the "
+                                    "in-place methods / inplace=True, and never mutate their arguments (pandas effect table)")
+        return Opaque(f"{recv.desc}.{name}()", fresh=True)
 
     # ------------------------------------------------------------------ str
     def str_method(self, s, name, args, kwargs):
